@@ -58,8 +58,9 @@ PARTIAL = [
     "(-1,-1,-1) for the caller's clock position and the named root key): without it the two legitimately differ (a fresh cache uses the DC's current position). Unprotect and "
     "RPC-path protect need no such hypothesis. For public-key outcomes `tied` states that the outcome is the DC's reply to exactly that call's request, nothing about the KEK.",
     "no lemma shows that the harness DC (udc of Model/Units_cache.v, RefDC in this module) meets dc_explicit_ok / dc_conforming_ok: the abstract ref_dc does (C10_ref_dc_explicit, "
-    "C10_ref_dc_conforming) and udc is written after it, but their equality under the symbolic instantiation is not proved; the C10_refine_ex_* instance uses a DC that only hands out "
-    "public envelopes (conformance vacuous).",
+    "C10_ref_dc_conforming) and udc is written after it, but their equality under the symbolic instantiation is not proved; of the two refinement instances C10_refine_ex_* uses a DC that only hands out "
+    "public envelopes (conformance vacuous) and C10_refine_ex_seed_* a DC answering with the private (31,31) seed envelope of the true root key (conformance proved, not vacuous; "
+    "it is not dc_explicit_ok, which C10_concrete_no_repeat_rpc does not need).",
     "C10_concrete_no_repeat_rpc / C10_concrete_transparent: concrete histories are {load_key, SYNC unprotect}; the concrete model has no async interleavings (those are in the abstract "
     "model and, for the source, in the sync/async twin ties C10_flow_twin_*).",
     "flows: KeyCache._get_key / _store_key have no flow tie (aliasing, refused by the translator); the cache at a raise INSIDE a callee that is handed the cache is not tied.",
